@@ -505,19 +505,21 @@ impl<'a> Gen<'a> {
 /// Generate the top-level pseudo node of a tree.
 pub fn gen_tree(g: &mut Rng, cfg: &GenCfg) -> Node {
     // a profile per tree, so that all-sync / all-async / thread-heavy / deep trees all occur
-    let lvl = |g: &mut Rng| *g.pick(&[0u64, 2, 5, 9, 14]);
+    // (under Miri trees are tiny, so every profile is feature-dense there)
+    let dense = cfg!(miri);
+    let lvl = |g: &mut Rng| *g.pick(if dense { &[5u64, 9, 9, 14, 14] } else { &[0u64, 2, 5, 9, 14] });
     let p = Profile {
         p_disabled: *g.pick(&[0u64, 3, 6, 10]),
         p_async: lvl(g),
-        p_thread: *g.pick(&[0u64, 1, 3, 6]),
-        p_group: *g.pick(&[0u64, 3, 6, 10]),
+        p_thread: *g.pick(if dense { &[2u64, 3, 4, 6] } else { &[0u64, 1, 3, 6] }),
+        p_group: *g.pick(if dense { &[3u64, 6, 8, 10] } else { &[0u64, 3, 6, 10] }),
         p_event: *g.pick(&[2u64, 6, 10]),
-        p_yield: *g.pick(&[0u64, 4, 9]),
+        p_yield: *g.pick(if dense { &[4u64, 9, 12] } else { &[0u64, 4, 9] }),
         p_when: *g.pick(&[0u64, 8, 16]),
-        p_header: *g.pick(&[0u64, 2, 4]),
-        p_remote: *g.pick(&[0u64, 1, 3]),
+        p_header: *g.pick(if dense { &[2u64, 3, 4] } else { &[0u64, 2, 4] }),
+        p_remote: *g.pick(if dense { &[1u64, 2, 3] } else { &[0u64, 1, 3] }),
         p_explicit: *g.pick(&[0u64, 0, 2, 4]),
-        p_deeper: *g.pick(&[8u64, 11, 14, 16]),
+        p_deeper: *g.pick(if dense { &[14u64, 16, 16, 16] } else { &[8u64, 11, 14, 16] }),
     };
     let budget = 1 + g.below(cfg.max_nodes as u64) as u32;
     let mut gen = Gen {
